@@ -9,6 +9,10 @@ from simlib.core import Outcome
 FORMS = ["delay", "delay", "delay_timedelta", "delay_absolute", "delay_subscription", "delay_subscription_absolute", "delay_with_mapper", "delay_with_mapper_sub", "timestamp", "time_interval"]
 
 
+def sc_sources_tail(ctx, n):
+    return ctx.sources[-n:]
+
+
 def pick_fn(sc):
     pool = sc["pool"]
     return lambda v: pool[vt.h(v) % len(pool)]
@@ -36,6 +40,12 @@ class Prop:
         sc = {"clock": rng.choice(["test", "historical", "historical"]), "form": form, "src": src, "d": rng.choice([0, 10, 20, 30, 50, 60, 100]), "sub_t": 205, "horizon": 2500}
         if "with_mapper" in form:
             sc["pool"] = [ctx.new_source("cold", prefix="p", maxn=2, positive_first=rng.random() < 0.7) for _ in range(2)]
+            for s in sc_sources_tail(ctx, 2):
+                r = rng.random()
+                if r < 0.15:
+                    s["kind"] = "sync"  # a delay observable that fires (or ends) inside its own subscribe()
+                elif r < 0.3:
+                    s["kind"] = "syncthen"  # ... or fires there and again later (a BehaviorSubject as delay)
             if form.endswith("_sub"):
                 sc["sub_delay"] = ctx.new_source("cold", prefix="p", maxn=1, positive_first=True)
         sc["sources"] = ctx.sources
